@@ -33,6 +33,10 @@ type Grammar struct {
 	Nullable []bool
 	First    []map[int]bool
 	Prod     []bool // productive
+
+	// UsedUnassigned is set by Derivation when a reduction by a rule without a $$ assignment (but with a tagged
+	// left-hand side) took part: its value is the target language's zero/undefined value, which differs between Go and TypeScript
+	UsedUnassigned bool
 }
 
 func (g *Grammar) T(i int) int  { return 2 + i }
